@@ -16,12 +16,22 @@ ASSUMPTIONS = [
 ]
 
 OBLIGATIONS = [
+    chx("share_truncated", "C03_h", "h_share_trunc", bounds={"quick": {"SPAN": 2}, "thorough": {"SPAN": 4}}, timeout={"quick": 120, "thorough": 1200},
+        cases={"thorough": [{"nobs": n, "fr": f, "_label": "obs%d%s" % (n, ".readfail" if f else "")} for n in (1, 2) for f in (0, 1)]},
+        desc="real Share.get_block/loop/_do_loop/_send_requests/_got_data/_got_error/_trigger_loop/_fail against a server holding a share image of symbolic length (answers "
+             "past the end are short or EMPTY) or whose reads fail, with symbolic wanted/needed spans and 1-2 waiting block requests: exactly the desired bytes are requested; "
+             "if a needed byte can never arrive the share is abandoned and every waiting request gets DEAD (DataUnavailable for a truncated image), so the fetcher can fail over "
+             "(fetcher_step shows it then uses other shares); otherwise the share stays alive, nothing is left pending, received/unavailable are exactly what the server did and "
+             "did not supply; the loop terminates",
+        outside="what Share validates from the received bytes (_get_satisfaction is stubbed: C02)"),
     chx("availability_read", "C46_h", "h_read",
         bounds={"quick": {"NSRV": 2, "NF": 3}, "thorough": {"NSRV": 3, "NF": 3}},
         cases={"quick": [{"k": k, "LATE": l, "a0both": b, "_label": "k%d%s%s" % (k, ".late" if l else "", ".both" if b else "")}
-                         for k in (1, 2) for l in (0, 1) for b in (0, 1)],
+                         for k in (1, 2) for l in (0, 1) for b in (0, 1)]
+                        + [{"k": k, "LATE": 2, "FATEMAP": [0, 1, 5], "a0both": b, "_label": "k%d.idle%s" % (k, ".both" if b else "")} for k in (1, 2) for b in (0, 1)],
                "thorough": [{"k": k, "a0": a, "_label": "3srv.k%da%d" % (k, a)} for k in (1, 2) for a in range(5)]
                            + [{"k": k, "a0": a, "LATE": 1, "_label": "3srv.late.k%da%d" % (k, a)} for k in (1, 2) for a in range(5)]
+                           + [{"k": k, "a0": a, "LATE": 2, "FATEMAP": [0, 1, 5], "_label": "3srv.idle.k%da%d" % (k, a)} for k in (1, 2) for a in range(5)]
                            + [{"k": k, "a0": a, "NSRV": 2, "NF": 5, "_label": "2srv5f.k%da%d" % (k, a)} for k in (1, 2) for a in (2, 3, 4)]
                            + [{"k": k, "a0": a, "NSRV": 2, "NF": 5, "LATE": 1, "_label": "2srv5f.late.k%da%d" % (k, a)} for k in (1, 2) for a in (2, 3, 4)]},
         timeout={"quick": 150, "thorough": 1500},
@@ -29,7 +39,9 @@ OBLIGATIONS = [
              "answering the share query with an error / nothing / share 0 / share 1 / both, each share good, dead, overdue-then-good (thorough: also corrupt, overdue-then-dead), "
              "notifications oldest-first or newest-first, optionally a second read on the same node; LATE cases: at least one server answers the share query only after the finder's "
              "overdue timer for that query has fired (the harness fires the timer, then delivers the answer): the read delivers data iff at least k distinct share numbers have a good "
-             "share on ANY server that eventually answers (and decodes only from good blocks), otherwise it fails with NotEnoughSharesError/NoSharesError; it fires exactly once",
+             "share on ANY server that eventually answers (and decodes only from good blocks), otherwise it fails with NotEnoughSharesError/NoSharesError; it fires exactly once. IDLE cases: at least one late answer "
+             "(it may land while the node is idle after the first read), shares may be good for the first read and dead afterwards, and a second read on the same node must "
+             "succeed iff k distinct share numbers are still good on the servers that have answered by then (shares announced while idle are not lost)",
         outside="Share internals (block/hash validation is scripted as the share's fate), overdue timers firing by time, more than 2 share numbers / 3 servers, other interleavings"),
     chx("fetcher_step", "C03_h", "h_step",
         bounds={"quick": {"NREC": 2, "NSH": 2, "NSV": 2, "KMAX": 2, "LIMIT": 2}, "thorough": {"NREC": 3, "NSH": 3, "NSV": 2, "KMAX": 3, "LIMIT": 2}},
